@@ -445,20 +445,24 @@ impl<'r> Builder<'r> {
     fn gen_enum(&mut self, depth: usize, taken: &mut Vec<String>, rich: bool, prefix_mode: bool) -> usize {
         let idx = self.enums.len();
         self.enums.push(EnumSpec { ident: format!("E{}x{}", self.did, idx), lifetime: false, variants: vec![], help_title: None });
-        let nvar = if rich { self.rng.range(1, 5) } else { self.rng.range(2, 7) };
+        // a name set of more than 256 commands now and then (indices, counts and list lengths beyond one octet)
+        let nvar = if rich { self.rng.range(1, 5) } else if depth == 0 && self.rng.chance(3) { self.rng.range(257, 300) } else { self.rng.range(2, 7) };
         let mut idents: Vec<String> = vec![];
         let mut variants = vec![];
         let shared: Option<String> = if prefix_mode { Some(NAME_SYL[self.rng.below(6)].to_string()) } else { None };
         for _ in 0..nvar {
             // ident: CamelCase of two words (so that the generated kebab name is predictable)
             let ident = loop {
-                let id = format!("{}{}", WORDS[self.rng.below(WORDS.len())], if self.rng.chance(70) { WORDS[self.rng.below(WORDS.len())] } else { "" });
+                let mut id = format!("{}{}", WORDS[self.rng.below(WORDS.len())], if self.rng.chance(70) { WORDS[self.rng.below(WORDS.len())] } else { "" });
+                if nvar > 40 {
+                    id = format!("{}N{}", id, idents.len());
+                }
                 if !idents.contains(&id) {
                     idents.push(id.clone());
                     break id;
                 }
             };
-            let explicit_name = prefix_mode || self.rng.chance(65) || taken.contains(&kebab_of_camel(&ident)) || kebab_of_camel(&ident) == "help";
+            let explicit_name = prefix_mode || nvar > 40 || self.rng.chance(65) || taken.contains(&kebab_of_camel(&ident)) || kebab_of_camel(&ident) == "help";
             let name = if explicit_name {
                 let pre = if prefix_mode && self.rng.chance(60) { shared.as_deref() } else { None };
                 gen_cmd_name(self.rng, taken, pre)
